@@ -54,7 +54,7 @@ def gen_spec(rng, fmt='NETCDF4', big=0.0):
     attrs = {}
     for i in range(rng.randrange(0, 5)):
         k = rng.choice(['title', 'history', 'ival', 'fval', 'farr', 'iarr', 'Conventions',
-                        'source', 'n_levels', 'scale'])
+                        'source', 'n_levels', 'scale', 'typecode', 'units', 'long_name'])
         attrs[k] = _gen_attr(rng)
     vars_ = []
     dl = {d[0]: d[1] for d in dims}
@@ -79,7 +79,8 @@ def gen_spec(rng, fmt='NETCDF4', big=0.0):
             'dt': dt, 'dims': vd, 'base': base, 'attrs': {}}
         base += 1000.
         for j in range(rng.randrange(0, 4)):
-            k = rng.choice(['units', 'long_name', 'scale', 'valid', 'flag', 'arr'])
+            k = rng.choice(['units', 'long_name', 'scale', 'valid', 'flag', 'arr', 'variables',
+                            'title', 'history'])
             v['attrs'][k] = _gen_attr(rng)
         if dt in ('f4', 'f8') and rng.random() < 0.12:
             # a descriptive attribute that some writers also understand as a knob
@@ -267,7 +268,7 @@ class State(object):
 def start(world, config):
     st = State(world, config)
     from PseudoNetCDF.pncgen import Pseudo2NetCDF
-    st.kwds0 = dict(Pseudo2NetCDF.create_variable_kwds)
+    st.kwds0 = dict(Pseudo2NetCDF.create_variable_kwds or {})
     return st
 
 
@@ -370,6 +371,10 @@ def compare(src, got, fmt):
                 dict(y, dtype=np.dtype(y['dtype']).newbyteorder('=').str)))))
         xa = {k: _norm_attr(v) for k, v in x['attrs'].items() if k != '_FillValue'}
         ya = {k: _norm_attr(v) for k, v in y['attrs'].items() if k != '_FillValue'}
+        if '_FillValue' in y['attrs'] and not any(
+                k in x['attrs'] for k in ('_FillValue', 'fill_value', 'missing_value')):
+            out.append(('varattr-names', '%s declares no fill value but comes back with '
+                        '_FillValue=%r' % (vk, y['attrs']['_FillValue'])))
         if set(xa) != set(ya):
             out.append(('varattr-names', '%s attributes %s -> %s' % (vk, sorted(xa), sorted(ya))))
         for k in xa:
@@ -542,7 +547,7 @@ def apply(st, op):
             w.probe('handle_id_recycled')
         st.ids.add(gid)
         from PseudoNetCDF.pncgen import Pseudo2NetCDF
-        if dict(Pseudo2NetCDF.create_variable_kwds) != st.kwds0:
+        if dict(Pseudo2NetCDF.create_variable_kwds or {}) != st.kwds0:
             st.stats['class_kwds_drift'] += 1
             w.probe('class_level_writer_options_drifted')
         obs['size'] = st.saves[op['cid']]['size_ack']
